@@ -1,0 +1,43 @@
+//go:build verif
+
+// Contracts for the deductive checks under /verif (comment-only; compiled only with -tags verif).
+
+package core
+
+// ---- gaspool.go ---------------------------------------------------------------------------
+
+//@ func GasPool.AddGas
+//@   requires gp != nil
+//@   ensures[C06] *gp == old(*gp) + amount && result == gp
+//@   ensures[C06] wide(uint64(*gp), 128) == wide(uint64(old(*gp)), 128) + wide(amount, 128)
+//@   panics when wide(uint64(*gp), 128) + wide(amount, 128) > 18446744073709551615
+//@   assigns *gp
+//@   nopanic[C06]
+
+//@ func GasPool.SubGas
+//@   requires gp != nil
+//@   ensures[C06] result == nil <==> uint64(old(*gp)) >= amount
+//@   ensures[C06] result == nil ==> uint64(*gp) == uint64(old(*gp)) - amount
+//@   ensures[C06] result != nil ==> *gp == old(*gp)
+//@   assigns *gp
+//@   nopanic[C06]
+
+//@ func GasPool.Gas
+//@   requires gp != nil
+//@   ensures[C06] result == uint64(*gp)
+//@   assigns nothing
+//@   nopanic[C06]
+
+// ---- state_transition.go ------------------------------------------------------------------
+
+// Intrinsic gas is 21000 (53000 for a Homestead contract creation) + 68 per non-zero byte
+// + 4 per zero byte; an error exactly when that sum does not fit 64 bits.
+//@ func IntrinsicGas
+//@   let base = ite(contractCreation && homestead, uint64(53000), uint64(21000))
+//@   let nzs = countnz(arr(data), off(data), uint64(len(data)))
+//@   ensures[C06] err == nil <==> intrinsic128(base, nzs, uint64(len(data))) <= 18446744073709551615
+//@   ensures[C06] err == nil ==> wide(result0, 128) == intrinsic128(base, nzs, uint64(len(data)))
+//@   ensures[C06] err != nil ==> result0 == 0
+//@   loop 1 invariant[C06] 0 <= $k && $k <= len(data) && nz == countnz(arr(data), off(data), uint64($k)) && nz <= uint64($k)
+//@   assigns nothing
+//@   nopanic[C06]
